@@ -124,6 +124,7 @@ pub fn run(ctx: &Ctx, rep: &mut Report) {
         }
         let chain = rng.pick(&[b"stellar".to_vec(), b"stellar-testnet".to_vec(), b"s".to_vec()]).clone();
         let mut w = ItsWorld::new(&mut rng, &chain, b"hub-address", 4);
+        w.u.blanket_ok = true;
         w.trust(b"ethereum");
         let third = w.u.principal();
         // ---------------------------------------------------------------- determinism twin
